@@ -20,6 +20,8 @@ R = '{"Read","WriteTo"}'
 RO = '{"Read"}'
 CL = '{"CloseRead","CloseWrite","Close"}'
 SD = '{"SetRD","SetWD","SetD"}'
+SDO = '{"SetD"}'          # the combined SetDeadline only (a code path of its own: pipe.go SetDeadline)
+WR = '{"Write","Read"}'
 CTL = '{"CloseRead","CloseWrite","Close","SetRD","SetWD","SetD"}'
 ALLK = '{"past","future","zero"}'
 
@@ -47,8 +49,14 @@ DESIGN = {
         # a writer and a reader (two calls each) against deadline setters on both ends
         "deadline": mkconsts({"l1": (W, 2), "r1": (RO, 2), "l3": (SD, 1), "r3": (SD, 2)},
                              "{2}", "{1}", "{99}", 4),
+        # the combined operations in every half-close state: one Write or Read of end l against SetDeadline(past/future/
+        # zero) of that end, a CloseRead/CloseWrite/Close of the same end and one of the peer, every interleaving
+        "halfclose_deadline": mkconsts({"l1": (WR, 1), "l3": (CL, 1), "l4": (SDO, 1), "r3": (CL, 1)},
+                                       "{1}", "{1}", "{99}", 4),
     },
     "thorough": {
+        "halfclose_deadline": mkconsts({"l1": (W, 1), "l2": (RO, 1), "l3": (CL, 1), "l4": (SDO, 1), "r3": (CL, 1)},
+                                       "{2}", "{1}", "{99}", 5),
         "close": mkconsts({"l1": (W, 1), "l2": (W, 1), "r1": (R, 1), "r2": (R, 1), "l3": (CL, 1), "r3": (CL, 1)},
                           "{0,2}", "{0,1,3}", "{1,99}", 4, DlKinds="{}"),
         "closeerr": mkconsts({"l1": (W, 1), "r1": (R, 2), "l3": (CL, 2), "r3": (CL, 2)},
@@ -63,8 +71,26 @@ DESIGN = {
 # ---- replay graphs (sequential-start schedules: the interleavings the driver can force) ----
 # mode "graph": the complete graph is dumped and every edge is covered; mode ("sim", n, depth): the edges of n
 # simulated behaviours.
+
+
+def halfclose_setd(e, peer_reader=False):
+    """Combined operations in every half-close state of end e: SetDeadline(past/future/zero) of e, one Write and one Read
+    of e, one of CloseRead/CloseWrite/Close on e and one on the peer, in every order (complete graph), with the timer
+    expiries.  Every edge is replayed on the real pipe."""
+    o = "r" if e == "l" else "l"
+    roles = {e + "1": (W, 1), e + "2": (RO, 1), e + "3": (CL, 1), e + "4": (SDO, 1), o + "3": (CL, 1)}
+    if peer_reader:
+        roles[o + "1"] = (RO, 1)
+    return (mkconsts(roles, "{2}", "{1}", "{99}", 5, EMIT="ACTION_CONSTRAINT EmitSeq"), "graph")
+
+
+# graphs whose every edge has to be replayed (the run is broken otherwise)
+COVER_ALL = ("setd_l", "setd_r")
+
 REPLAY = {
     "quick": {
+        "setd_l": halfclose_setd("l"),
+        "setd_r": halfclose_setd("r"),
         # two multi-chunk writers against one-byte readers and a closer: complete graph, every edge replayed
         "atomic": (mkconsts({"l1": (W, 1), "l2": (W, 1), "r1": (RO, 2), "r2": (R, 1), "l3": (CL, 1)},
                             "{2}", "{1}", "{1}", 5, DlKinds="{}", EMIT="ACTION_CONSTRAINT EmitSeq"), "graph"),
@@ -72,6 +98,8 @@ REPLAY = {
                          "{0,1,3}", "{0,1,3}", "{1,99}", 6, CloseKinds='{"nil","custom"}', EMIT="ACTION_CONSTRAINT EmitSeq"), ("sim", 150, 60)),
     },
     "thorough": {
+        "setd_l": halfclose_setd("l", True),
+        "setd_r": halfclose_setd("r", True),
         "atomic": (mkconsts({"l1": (W, 1), "l2": (W, 1), "r1": (RO, 3), "r2": (R, 2), "l3": (CL, 1), "r3": (CL, 1)},
                             "{2,3}", "{1}", "{1}", 6, DlKinds="{}", EMIT="ACTION_CONSTRAINT EmitSeq"), "graph"),
         "mix": (mkconsts({"l1": (W, 2), "l2": (W, 1), "r1": (R, 2), "r2": (RO, 1), "l3": (CTL, 1), "r3": (CTL, 1)},
@@ -242,9 +270,9 @@ def run(tier, seed, replay):
                      edges=False, heap="12g" if big else "6g")
         return name, r
 
-    pool = ThreadPoolExecutor(max_workers=4)
+    pool = ThreadPoolExecutor(max_workers=5)
     # C15_SKIP_DESIGN is for mutation experiments only (the design run does not depend on the code)
-    design_futs = [pool.submit(design, n) for n in DESIGN[tier]] if not os.environ.get("C15_SKIP_DESIGN") else []
+    design_futs = [pool.submit(design, n) for n in DESIGN[tier] if not (os.environ.get("C15_AB") and n == "halfclose_deadline")] if not os.environ.get("C15_SKIP_DESIGN") else []
 
     # (1b) thorough only: liveness under weak fairness of the internal steps (EventuallyReturns) on a small configuration
     def live():
@@ -263,8 +291,8 @@ def run(tier, seed, replay):
                          simulate="num=%d" % mode[1], depth=mode[2], seed=seed, edge_limit=1500000)
         return name, mode, g
 
-    gpool = ThreadPoolExecutor(max_workers=4)
-    graph_futs = [gpool.submit(graph_of, n) for n in REPLAY[tier]]
+    gpool = ThreadPoolExecutor(max_workers=6)
+    graph_futs = [gpool.submit(graph_of, n) for n in REPLAY[tier] if not (os.environ.get("C15_AB") and n in COVER_ALL)]
 
     traces = []
     # (3) free-running histories
@@ -298,8 +326,12 @@ def run(tier, seed, replay):
             raise vlib.Broken("replay graph %s violates %s" % (name, g.violation))
         graph = vlib.Graph(g)
         calls = lambda e: e[1].get("n") in ("Call", "Fire")
-        paths, left = graph.cover(seed=seed, max_len=mode[2] if mode != "graph" else 60, max_paths=((6000 if mode == "graph" else 2500) if big else 300), prefer=calls)
-        walks = graph.random_walks(400 if big else 60, mode[2] if mode != "graph" else 60, seed=seed)
+        every = name in COVER_ALL
+        paths, left = graph.cover(seed=seed, max_len=mode[2] if mode != "graph" else 60,
+                                  max_paths=20000 if every else ((6000 if mode == "graph" else 2500) if big else 300), prefer=calls)
+        if every and left:
+            raise vlib.Broken("replay graph %s: %d edges are not covered by the replayed paths" % (name, left))
+        walks = graph.random_walks((100 if every else 400) if big else (20 if every else 60), mode[2] if mode != "graph" else 60, seed=seed)
         behs += [graph.behaviour(p) for p in paths + walks]
         v.coverage["replay_graphs"][name] = {"mode": mode, "distinct": g.distinct, "edges": len(graph.edges), "cover_paths": len(paths),
                                              "uncovered_edges": left, "random_walks": len(walks)}
@@ -392,6 +424,12 @@ def run_replay(v, binary, replay, seed):
         n += res["behaviours"]
         for t in res.get("traces") or []:
             traces += split_traces(t)
+    elif isinstance(src, dict) and "behaviour" in src:      # a model behaviour with the model's observations
+        res, out, rc = vlib.run_driver(binary, "TestReplay", {"behaviours": [src["behaviour"]], "seed": seed}, 300)
+        res = crash_or_absorb(v, res, out, rc, "replay")
+        n += res["behaviours"]
+        for t in res.get("traces") or []:
+            traces += split_traces(t)
     elif isinstance(src, dict) and "race" in src:      # a race probe
         res, out, rc = vlib.run_driver(binary, "TestRace", {"seed": seed, "params": {"trials": 3000}}, 900)
         res = crash_or_absorb(v, res, out, rc, "replay", src)
@@ -406,5 +444,5 @@ def run_replay(v, binary, replay, seed):
     report_rejected(v, rejected)
     v.coverage.update(states=v.coverage.get("trace_validation_states", 0), transitions=v.coverage.get("trace_validation_transitions", 0),
                       traces_validated_against_impl=validated, behaviours_replayed=n)
-    v.sample(src if src is not None else rp.get("trace"))
+    v.sample(src.get("calls") if isinstance(src, dict) and "behaviour" in src else (src if src is not None else rp.get("trace")))
     return v.finish()
